@@ -924,6 +924,19 @@ Section Sound.
       destruct Hs as [->|(kvs & vvs & ->)]; [reflexivity|]. cbn [obind]. apply B_dict_meth.
   Qed.
 
+  (* a called lambda with a starred argument has no value in the reference semantics (argument lists are not modelled) *)
+  Lemma starred_call_none E ps b args kwn kwv :
+    existsb is_starred args = true -> ev E (Call (Lambda ps b) args kwn kwv) = None.
+  Proof.
+    intros Hs.
+    assert (Ho : omap (ev E) args = None).
+    { induction args as [|a args IHa]; [discriminate|]. cbn [existsb] in Hs. rewrite omap_cons.
+      destruct (is_starred a) eqn:Ea.
+      - destruct a; try discriminate. reflexivity.
+      - cbn [orb] in Hs. rewrite (IHa Hs). destruct (ev E a); reflexivity. }
+    cbn [eval]. destruct kwn as [|k kwn]; rewrite Ho; reflexivity.
+  Qed.
+
   Lemma mentions_call_callee y g args kwn kwv : mentions y (Call g args kwn kwv) = false -> mentions y g = false.
   Proof. intros H. rewrite mentions_children in H. cbn [children mentions_any] in H. apply orb_false_iff in H. tauto. Qed.
 
@@ -932,7 +945,7 @@ Section Sound.
      Ok (rebuild (Call g args kwn kwv) cs, c1)) = Ok (e', c') ->
     stack_ok c st -> pre st c (Call g args kwn kwv) -> wfq e' = true ->
     (forall fn, g = Name fn -> is_call_handler fn = false) ->
-    (forall ps b, g = Lambda ps b -> bind_lambda_call ps args kwn kwv = None) ->
+    (forall ps b, g = Lambda ps b -> existsb is_starred args = true \/ bind_lambda_call ps args kwn kwv = None) ->
     post st c (Call g args kwn kwv) e' c'.
   Proof.
     intros H Hst Hp Hwe Hnh Hnb.
@@ -976,8 +989,10 @@ Section Sound.
       intros v Hv. exfalso.
       assert (Hd : has_dup ps = false).
       { apply andb_true_iff in Hwc. destruct Hwc as [Hwg _]. apply wfq_lam_iff in Hwg. tauto. }
-      destruct (eval_call_lambda_some Ein ps g args kwn kwv v Hd Hv) as (E' & given & Hgv & _).
-      rewrite (Hnb ps g eq_refl) in Hgv. discriminate.
+      destruct (Hnb ps g eq_refl) as [Hstar|Hnone].
+      + rewrite (starred_call_none Ein ps g args kwn kwv Hstar) in Hv. discriminate.
+      + destruct (eval_call_lambda_some Ein ps g args kwn kwv v Hd Hv) as (E' & given & Hgv & _).
+        rewrite Hnone in Hgv. discriminate.
   Qed.
 
   (* ---- name discipline of the terms the rules build ---- *)
@@ -1665,10 +1680,13 @@ Section Sound.
         apply (sound_call_generic f IH IHp st bd c (Attr e a) args kwn kwv); try assumption; intros; discriminate.
       + apply (sound_call_generic f IH IHp st bd c (Call e args0 kwn0 kwv0) args kwn kwv); try assumption; intros; discriminate.
       + (* Lambda *)
-        cbn [simp] in H. destruct (bind_lambda_call ps args kwn kwv) as [given|] eqn:Eb.
-        * apply (sound_beta f IH st bd c ps e args kwn kwv given); assumption.
+        cbn [simp] in H. destruct (existsb is_starred args) eqn:Estar.
         * apply (sound_call_generic f IH IHp st bd c (Lambda ps e) args kwn kwv); try assumption; [intros; discriminate|].
-          intros ps0 b0 Heq. inversion Heq; subst. assumption.
+          intros ps0 b0 Heq. left. exact Estar.
+        * destruct (bind_lambda_call ps args kwn kwv) as [given|] eqn:Eb.
+          -- apply (sound_beta f IH st bd c ps e args kwn kwv given); assumption.
+          -- apply (sound_call_generic f IH IHp st bd c (Lambda ps e) args kwn kwv); try assumption; [intros; discriminate|].
+             intros ps0 b0 Heq. inversion Heq; subst. right. assumption.
       + apply (sound_call_generic f IH IHp st bd c (UnaryOp o e) args kwn kwv); try assumption; intros; discriminate.
       + apply (sound_call_generic f IH IHp st bd c (BinOp o e1 e2) args kwn kwv); try assumption; intros; discriminate.
       + apply (sound_call_generic f IH IHp st bd c (BoolOp o es) args kwn kwv); try assumption; intros; discriminate.
